@@ -76,9 +76,14 @@ type c18WCase struct {
 	// or constant that is initialised lazily instead of "only during init" is
 	// initialised under concurrency.  Warm: expected results first, valid
 	// sr25519 signatures available as inputs, shared sr25519 KeyPair objects.
-	Cold  bool
-	Shape string // generator shape (label only)
-	G     [][]c18Op
+	Cold bool
+	// Lockstep: the goroutines rendezvous (harness barrier) before every op
+	// index, so that their i-th calls enter the library at (nearly) the same
+	// instant; otherwise they only start together and nothing in the harness
+	// synchronises them until the final join.
+	Lockstep bool
+	Shape    string // generator shape (label only)
+	G        [][]c18Op
 }
 
 var c18MixedKinds = []string{
@@ -117,6 +122,7 @@ func c18GenWorkload(t *rapid.T) c18WCase {
 	c.CacheCap = rapid.IntRange(1, 3).Draw(t, "cachecap")
 	c.Seed = rapid.Uint64().Draw(t, "seed")
 	c.Cold = rapid.IntRange(0, 2).Draw(t, "cold") == 0
+	c.Lockstep = rapid.IntRange(0, 2).Draw(t, "lockstep") == 0
 	shape := rapid.SampledFrom([]string{"mixed", "mixed", "mixed", "mixed", "mixed", "cache-storm", "cache-storm", "sign-storm"}).Draw(t, "shape")
 	c.Shape = shape
 	var (
@@ -302,7 +308,7 @@ func c18CheckWorkload(c c18WCase) h.Result {
 	default:
 		r.Class("goroutines:9-16")
 	}
-	r.Class(fmt.Sprintf("procs:%d", c.Procs), "shape:"+c.Shape)
+	r.Class(fmt.Sprintf("procs:%d", c.Procs), "shape:"+c.Shape, fmt.Sprintf("lockstep:%v", c.Lockstep))
 	if c.Cold {
 		r.Class("cold(first library calls are concurrent)")
 	} else {
@@ -798,6 +804,14 @@ func TestC18ChildWorkload(t *testing.T) {
 		t0 := make([]time.Time, len(c.G))
 		t1 := make([]time.Time, len(c.G))
 		bar := cache.C18NewBarrier(len(c.G))
+		var rounds []*cache.C18StartBarrier
+		if c.Lockstep {
+			lens := make([]int, len(c.G))
+			for g := range c.G {
+				lens[g] = len(c.G[g])
+			}
+			rounds = cache.C18RoundBarriers(lens)
+		}
 		var wg sync.WaitGroup
 		for g := range c.G {
 			got[g] = make([][]byte, len(c.G[g]))
@@ -808,12 +822,18 @@ func TestC18ChildWorkload(t *testing.T) {
 				defer func() {
 					if p := recover(); p != nil {
 						panics[g] = fmt.Sprintf("op %d: %v", cur, p)
+						if len(rounds) > 0 {
+							rounds[0].Abort()
+						}
 					}
 				}()
 				bar.Wait()
 				t0[g] = time.Now()
 				for i, op := range c.G[g] {
 					cur = i
+					if rounds != nil {
+						rounds[i].Wait()
+					}
 					cache.C18Perturb(op.Y, op.Spin, r)
 					got[g][i] = c18Exec(op, m, sh)
 				}
